@@ -132,7 +132,7 @@ func segMakesNotSimple(segStart, segEnd Point, paths []Path) bool {
 			if seg1.start == seg2.start || seg1.end == seg2.end ||
 				seg1.start == seg2.end || seg1.end == seg2.start {
 				// colocated endpoints are not a problem here
-				return false
+				continue
 			}
 			numIntersections, _, _ := findIntersection(seg1, seg2)
 			if numIntersections > 0 {
